@@ -116,6 +116,34 @@ namespace
                 sh->parked.push_back(keep);
                 return;
             }
+            if (res.rfind("/file/", 0) == 0)
+            {
+                // a file of <n> bytes served with Http::serveFile: the descriptor the transport opens for it
+                // is per-connection state as well and must be gone when the response is
+                size_t n         = size_t(atol(res.c_str() + 6));
+                const char* dir  = getenv("VERIF_WORKDIR");
+                std::string path = std::string(dir ? dir : "/tmp") + "/verif-c08-file-" + std::to_string(getpid()) + "-" + std::to_string(n);
+                {
+                    // created once per process and size, never rewritten: another connection may be in the
+                    // middle of being served from it
+                    static std::mutex fm;
+                    static std::set<size_t> made;
+                    std::lock_guard<std::mutex> g(fm);
+                    if (!made.count(n))
+                    {
+                        FILE* f = fopen(path.c_str(), "wb");
+                        if (f)
+                        {
+                            std::string body(n, 'f');
+                            fwrite(body.data(), 1, n, f);
+                            fclose(f);
+                        }
+                        made.insert(n);
+                    }
+                }
+                Http::serveFile(w, path);
+                return;
+            }
             if (res == "/sweep")
             {
                 std::vector<std::shared_ptr<Http::ResponseWriter>> gone;
@@ -152,10 +180,11 @@ namespace
                TimedAnswered,  // k requests whose handler arms a response time-out and answers in time
                TimedParked,    // one request whose handler arms a 100 ms response time-out and never answers: 408 expected
                AcrossSweep,    // request, pause, (one connection of the round asks for /sweep), request again, close
+               ServedFiles,    // asks for files of 0, 1 and 3000 bytes served with serveFile, reads each, closes
                StuckThenSilent }; // asks for a large response into a 4 KiB window, reads nothing, stays silent past the idle time-out, then closes
     const char* END_NAMES[] = { "close", "shutdown(WR)+read-to-EOF", "RST", "abort-with-response-pending", "silence-until-timeout", "gone-before-async-answer",
                                 "response-timeout-armed-and-answered", "response-timeout-expires(writer parked)", "open-across-sweep-of-parked-writers",
-                                "large-response-stuck+silent-past-idle-timeout" };
+                                "served-files(0,1,3000 bytes)", "large-response-stuck+silent-past-idle-timeout" };
 
     struct ConnScript
     {
@@ -251,6 +280,20 @@ namespace
                 net::sleep_ms(50);
             if (s.fail.empty() && (!net::send_all(fd, REQ) || !net::read_message(fd, carry, true, m, 5000, err) || m.status != 200))
                 s.fail = "a connection that was open and idle while parked response writers were destroyed is no longer served: " + err;
+            ::close(fd);
+            break;
+        }
+        case ServedFiles: {
+            static const size_t sizes[] = { 0, 1, 3000 };
+            for (size_t n : sizes)
+            {
+                if (!s.fail.empty())
+                    break;
+                if (!net::send_all(fd, "GET /file/" + std::to_string(n) + " HTTP/1.1\r\nHost: x\r\n\r\n") || !net::read_message(fd, carry, true, m, 5000, err))
+                    s.fail = "served file of " + std::to_string(n) + " bytes: no answer: " + err;
+                else if (m.status != 200 || m.body.size() != n)
+                    s.fail = "served file of " + std::to_string(n) + " bytes: status " + std::to_string(m.status) + ", body of " + std::to_string(m.body.size()) + " bytes";
+            }
             ::close(fd);
             break;
         }
@@ -405,6 +448,19 @@ namespace verif
                 ++rounds;
                 inflight = true;
                 desc += std::to_string(ns) + "x large-response-stuck+silent-past-idle-timeout | ";
+            }
+        }
+        {
+            unsigned nf = c.pick(3);
+            if (nf)
+            {
+                std::vector<ConnScript> r(nf);
+                for (auto& s : r)
+                    s.end = ServedFiles;
+                kinds.insert(int(ServedFiles));
+                plan.push_back(r);
+                ++rounds;
+                desc += std::to_string(nf) + "x served-files | ";
             }
         }
         std::string cfg = "workers=" + std::to_string(workers) + (timeouts ? " timeouts=1s" : "") + " rounds=" + std::to_string(rounds);
